@@ -78,11 +78,13 @@ def REG_RETENTION_LIST_BASE_ADDRESS : Nat := 0x029F
 def MAX_LORA_SYMB_NUM_TIMEOUT : Nat := 248
 def MAX_NB_REG_IN_RETENTION : Nat := 4
 
-/-- `sx126x_lora_bw_e` by bandwidth in Hz -/
+/-- `sx126x_lora_bw_e` by bandwidth in Hz: the datasheet's rounded figure, or for the 15.6 kHz setting
+also the value `sx126x_get_lora_bw_in_hz` returns (15 625 — what the crate's `hz()` is since the
+C15 repair) -/
 def loraBwCode (hz : Nat) : Option Nat :=
   if hz = 500000 then some 6 else if hz = 250000 then some 5 else if hz = 125000 then some 4
   else if hz = 62500 then some 3 else if hz = 41670 then some 10 else if hz = 31250 then some 2
-  else if hz = 20830 then some 9 else if hz = 15630 then some 1 else if hz = 10420 then some 8
+  else if hz = 20830 then some 9 else if (hz = 15625 ∨ hz = 15630) then some 1 else if hz = 10420 then some 8
   else if hz = 7810 then some 0 else none
 def LORA_BW_500 : Nat := 6
 
@@ -390,9 +392,9 @@ def sx1272SetLoraModParams (sf bw125 cr : Nat) (ldro : UInt8) : Prog Unit := do
   writeRegister REG_LORA_MODEM_CONFIG_1 [r0 ||| u8 (bw125 * 64) ||| u8 (cr * 8) ||| ldro, r1 ||| u8 (sf * 16)]
   detectOptimize sf
 
-/-- `sx127x_lora_bw_e` by bandwidth in Hz -/
+/-- `sx127x_lora_bw_e` by bandwidth in Hz (rounded figure, or 15 625 as `sx127x_get_lora_bw_in_hz` has it) -/
 def bwCode (hz : Nat) : Option Nat :=
-  if hz = 7810 then some 0 else if hz = 10420 then some 1 else if hz = 15630 then some 2
+  if hz = 7810 then some 0 else if hz = 10420 then some 1 else if (hz = 15625 ∨ hz = 15630) then some 2
   else if hz = 20830 then some 3 else if hz = 31250 then some 4 else if hz = 41670 then some 5
   else if hz = 62500 then some 6 else if hz = 125000 then some 7 else if hz = 250000 then some 8
   else if hz = 500000 then some 9 else none
